@@ -42,6 +42,10 @@ pub struct SemTarget {
     pub blanks: Vec<(String, usize)>,
     /// occurrence (path, index) at which the closed rename loop is run for real (C18)
     pub loop_at: Option<(String, usize)>,
+    /// module paths of each workspace folder's program (first entry: its main module);
+    /// empty = one folder holding every file
+    #[serde(default)]
+    pub folders: Vec<Vec<String>>,
 }
 
 fn role_name(r: Role) -> &'static str {
@@ -134,7 +138,120 @@ pub fn build_target(ast: &ProgramAst, mods: &[RMod], rng: &mut crate::prng::Rng)
         binders,
         blanks,
         loop_at,
+        folders: Vec::new(),
     }
+}
+
+/// Adds a second workspace folder `fb/` whose one-module program imports a module of the
+/// first folder's program and uses one of its schema declarations: the two folders then
+/// *share* that module (a monorepo with two APIs and common types). The extra use joins
+/// the binding table. Returns false when the program offers nothing to share.
+pub fn add_shared_folder(t: &mut SemTarget, ast: &ProgramAst, k: usize) -> bool {
+    let cands: Vec<(usize, &crate::gen::Binder)> = ast
+        .binders
+        .iter()
+        .enumerate()
+        .filter(|(_, b)| b.kind == BinderKind::Decl && b.is_schema && b.module != 0)
+        .collect();
+    if cands.is_empty() {
+        // nothing to share: the second folder's program stands alone
+        t.files.insert("fb/main.oal".into(), "res /fbres on get -> <>;\n".into());
+        t.occs.insert("fb/main.oal".into(), Vec::new());
+        t.folders = vec![ast.modules.iter().map(|m| m.path.clone()).collect(), vec!["fb/main.oal".to_string()]];
+        return true;
+    }
+    let (bid, b) = cands[k % cands.len()];
+    let mpath = &ast.modules[b.module].path;
+    let mut text = String::new();
+    text.push_str("use \"../");
+    text.push_str(mpath);
+    text.push_str("\" as ");
+    let qdef = (text.len(), text.len() + 2);
+    text.push_str("sh ;\n/* second folder 😉 */ res /fbres on get -> < ");
+    let quse = (text.len(), text.len() + 2);
+    text.push_str("sh.");
+    let use_ = (text.len(), text.len() + b.name.len());
+    text.push_str(&b.name);
+    text.push_str(" > ;\n");
+    let qb = t.binders.len();
+    t.binders.push(Some(SBinder {
+        kind: "qualifier".into(),
+        module: "fb/main.oal".into(),
+        name: "sh".into(),
+        name_span: qdef,
+        window: (0, text.len()),
+    }));
+    t.occs.insert(
+        "fb/main.oal".into(),
+        vec![
+            SOcc { start: qdef.0, end: qdef.1, role: "qualdef".into(), binder: Some(qb) },
+            SOcc { start: quse.0, end: quse.1, role: "qualuse".into(), binder: Some(qb) },
+            SOcc { start: use_.0, end: use_.1, role: "use".into(), binder: Some(bid) },
+        ],
+    );
+    t.files.insert("fb/main.oal".into(), text);
+    // folder A: the whole program; folder B: its main, the shared module and whatever that imports
+    let a: Vec<String> = ast.modules.iter().map(|m| m.path.clone()).collect();
+    let mut reach: Vec<usize> = vec![b.module];
+    let mut i = 0;
+    while i < reach.len() {
+        let m = reach[i];
+        i += 1;
+        // imports are `use "<relative path>"` statements: resolve them against the module list
+        for st in ast.modules[m].stmts.iter().filter(|s| s.kind == crate::gen::StmtKind::Import) {
+            if let Some(tok) = st.toks.get(1) {
+                let rel = tok.text.trim_matches('"');
+                let base = format!("{BASE}{}", ast.modules[m].path);
+                if let Ok(u) = url::Url::parse(&base).and_then(|u| u.join(rel)) {
+                    if let Some(p) = u.as_str().strip_prefix(BASE) {
+                        if let Some(j) = ast.modules.iter().position(|x| x.path == p) {
+                            if !reach.contains(&j) {
+                                reach.push(j);
+                            }
+                        }
+                    }
+                }
+            }
+        }
+    }
+    let mut bset = vec!["fb/main.oal".to_string()];
+    bset.extend(reach.into_iter().map(|j| ast.modules[j].path.clone()));
+    t.folders = vec![a, bset];
+    true
+}
+
+/// The modules of every folder that contains `path` (all files when there is one folder).
+fn scope_of(t: &SemTarget, path: &str) -> BTreeSet<String> {
+    if t.folders.is_empty() {
+        return t.files.keys().cloned().collect();
+    }
+    t.folders.iter().filter(|f| f.iter().any(|p| p == path)).flat_map(|f| f.iter().cloned()).collect()
+}
+
+/// The main modules of the folders that contain `path`.
+fn mains_of(t: &SemTarget, path: &str) -> Vec<String> {
+    if t.folders.is_empty() {
+        return vec!["main.oal".to_string()];
+    }
+    t.folders.iter().filter(|f| f.iter().any(|p| p == path)).map(|f| f[0].clone()).collect()
+}
+
+fn mains(t: &SemTarget) -> Vec<String> {
+    if t.folders.is_empty() {
+        vec!["main.oal".to_string()]
+    } else {
+        t.folders.iter().map(|f| f[0].clone()).collect()
+    }
+}
+
+/// Compiles the given folders' programs; the documents concatenated.
+fn compile_all(files: &BTreeMap<String, String>, mains: &[String]) -> Result<String, crate::pipeline::Failure> {
+    let mut out = String::new();
+    for m in mains {
+        out.push_str(&compile_to_yaml(BASE, files, m)?);
+        out.push_str("\n---\n");
+    }
+    Ok(out)
 }
 
 fn pos_in(text: &str, start: usize, end: usize, k: usize) -> Pos {
@@ -204,11 +321,14 @@ pub fn check_c17(ex: &mut Exec, at: usize, t: &SemTarget) {
         ex.stats.count("checkpoint_not_at_target", 1);
         return;
     }
-    if compile_to_yaml(BASE, &t.files, "main.oal").is_err() {
+    if compile_all(&t.files, &mains(t)).is_err() {
         ex.stats.count("generator_rejected", 1);
         return;
     }
     ex.stats.count("semantic_checkpoints", 1);
+    if t.files.contains_key("fb/main.oal") {
+        ex.stats.probe("module_shared_by_two_folders");
+    }
     if ex.peer.server.state.is_stale {
         ex.stats.probe("request_while_stale");
     }
@@ -293,10 +413,13 @@ pub fn check_c17(ex: &mut Exec, at: usize, t: &SemTarget) {
                 let (bid, b) = binder.clone().unwrap();
                 if is_decl_binder {
                     // exactly the uses bound to the declaration, across all modules
+                    // "all modules of the folder": of every folder the requesting document belongs to
+                    let scope = scope_of(t, &path);
                     let want: BTreeSet<(String, Pos, Pos)> = uses
                         .get(&bid)
                         .map(|s| {
                             s.iter()
+                                .filter(|(p, _, _)| scope.contains(p))
                                 .map(|(p, a, z)| {
                                     let tx = &t.files[p];
                                     (p.clone(), position::to_pos(tx, *a), position::to_pos(tx, *z))
@@ -388,13 +511,13 @@ pub fn check_c18(ex: &mut Exec, at: usize, t: &SemTarget) {
         ex.stats.count("checkpoint_not_at_target", 1);
         return;
     }
-    let before = match compile_to_yaml(BASE, &t.files, "main.oal") {
-        Ok(y) => y,
-        Err(_) => {
-            ex.stats.count("generator_rejected", 1);
-            return;
-        }
-    };
+    if t.files.contains_key("fb/main.oal") {
+        ex.stats.probe("module_shared_by_two_folders");
+    }
+    if compile_all(&t.files, &mains(t)).is_err() {
+        ex.stats.count("generator_rejected", 1);
+        return;
+    }
     ex.stats.count("semantic_checkpoints", 1);
     if ex.peer.server.state.is_stale {
         ex.stats.probe("request_while_stale");
@@ -536,7 +659,10 @@ pub fn check_c18(ex: &mut Exec, at: usize, t: &SemTarget) {
             }
             _ => String::new(),
         };
-        match compile_to_yaml(BASE, &after, "main.oal") {
+        // judged: the programs of the folders the requesting document belongs to
+        let judged = mains_of(t, path);
+        let before = compile_all(&t.files, &judged).unwrap_or_default();
+        match compile_all(&after, &judged) {
             Err(f) => {
                 ex.fail_pub(
                     at,
